@@ -928,6 +928,185 @@ func TestLiteralArgumentsEachEvaluation(t *testing.T) {
 	evid.Exhaustive("collection-literal argument x loop form: every evaluation binds a new collection", n)
 }
 
+// TestRepeatedCallSites: a call site that is executed several times in one run binds, every time, the values its
+// argument expressions have at that time - positional, by name, in the variadic tail - also when an argument expression
+// has an effect of its own (a counter, a request to end the run): the call that is still made is made with the
+// arguments the script gave. Reference: a direct evaluation of the few expression forms used, in the order the probe
+// function asks for its parameters.
+func TestRepeatedCallSites(t *testing.T) {
+	exprs := []string{"it", "it * 10", "next()", "acc", "7", "stop(it)"}
+	type shape struct {
+		fn    string
+		param []int // which parameter (index) every argument is bound to; for vrec: position
+		text  string
+	}
+	shapes := []shape{
+		{"rec", []int{0, 1}, "rec(%s, %s)"},
+		{"rec", []int{0, 1}, "rec(%s, b = %s)"},
+		{"rec", []int{1, 0}, "rec(b = %s, a = %s)"},
+		{"rec", []int{0, 2}, "rec(%s, c = %s)"},
+		{"rec", []int{0, 1, 2}, "rec(%s, %s, c = %s)"},
+		{"rec", []int{0, 2, 1}, "rec(a = %s, c = %s, b = %s)"},
+		{"vrec", []int{0, 1, 2}, "vrec(%s, %s, %s)"},
+		{"vrec", []int{0}, "vrec(%s)"},
+	}
+	loops := []struct {
+		open, close string
+		its         []int64
+	}{
+		{"for it in [1, 2, 3] {\n", "}\n", []int64{1, 2, 3}},
+		{"for it = 1; it <= 3; it = it + 1 {\n", "}\n", []int64{1, 2, 3}},
+		{"for o in [1, 2] {\nfor it in [o, o + 5] {\n", "}\n}\n", []int64{1, 6, 2, 7}},
+	}
+	n := 0
+	var rec func(sh shape, chosen []int)
+	run := func(sh shape, chosen []int) {
+		for li, lp := range loops {
+			args := make([]any, len(chosen))
+			for i, e := range chosen {
+				args[i] = exprs[e]
+			}
+			call := fmt.Sprintf(sh.text, args...)
+			src := "acc = 0\n" + lp.open + "acc = acc + it\n" + call + "\n" + lp.close + "rec(100, 200)\n"
+			// reference
+			var want []string
+			counter, acc, stopped := int64(0), int64(0), false
+			eval := func(e int, it int64) any {
+				switch e {
+				case 0:
+					return it
+				case 1:
+					return it * 10
+				case 2:
+					counter++
+					return counter
+				case 3:
+					return acc
+				case 4:
+					return int64(7)
+				default:
+					stopped = true
+					want = append(want, "stop: "+probe.Render(it))
+					return it
+				}
+			}
+			for _, it := range lp.its {
+				acc += it
+				if sh.fn == "rec" {
+					vals := []any{nil, "db", "dc"}
+					for pi := 0; pi < 3; pi++ { // the probe asks for a, b, c in this order
+						for ai, p := range sh.param {
+							if p == pi {
+								vals[pi] = eval(chosen[ai], it)
+							}
+						}
+					}
+					want = append(want, "rec: "+probe.Render(vals[0])+" "+probe.Render(vals[1])+" "+probe.Render(vals[2]))
+				} else {
+					first := eval(chosen[0], it)
+					rest := []any{}
+					for _, e := range chosen[1:] {
+						rest = append(rest, eval(e, it))
+					}
+					want = append(want, "vrec: "+probe.Render(first)+" "+probe.Render(rest))
+				}
+				if stopped {
+					break
+				}
+			}
+			if !stopped {
+				want = append(want, "rec: "+probe.Render(int64(100))+" "+probe.Render(int64(200))+" "+probe.Render("dc"))
+			}
+			// implementation
+			var got []string
+			var cnt int64
+			recParams := []*runtimev2.Param{{Name: "a"}, {Name: "b", Val: func() any { return "db" }}, {Name: "c", Val: func() any { return "dc" }}}
+			vrecParams := []*runtimev2.Param{{Name: "first"}, {Name: "rest", Variable: true}}
+			stopParams := []*runtimev2.Param{{Name: "code", Val: func() any { return int64(0) }}}
+			none := []*runtimev2.Param{}
+			chk := func(ps []*runtimev2.Param) runtimev2.FnCall {
+				return func(ctx *runtimev2.Task, e *ast.CallExpr) *errchain.PlError { return runtimev2.CheckPassParam(ctx, e, ps) }
+			}
+			record := func(name string, ps []*runtimev2.Param) runtimev2.FnCall {
+				return func(ctx *runtimev2.Task, e *ast.CallExpr) *errchain.PlError {
+					line := name + ":"
+					for i := range ps {
+						v, err := runtimev2.GetParam(ctx, e, ps, i)
+						if err != nil {
+							return err
+						}
+						if lst, ok := v.([]any); (ok && lst == nil) || (v == nil && ps[i].Variable) {
+							v = []any{}
+						}
+						line += " " + probe.Render(v)
+					}
+					got = append(got, line)
+					return nil
+				}
+			}
+			fns := map[string]*runtimev2.Fn{
+				"rec":  {CallCheck: chk(recParams), Call: record("rec", recParams), Desc: runtimev2.FnDesc{Name: "rec", Params: recParams}},
+				"vrec": {CallCheck: chk(vrecParams), Call: record("vrec", vrecParams), Desc: runtimev2.FnDesc{Name: "vrec", Params: vrecParams}},
+				"next": {CallCheck: chk(none), Call: func(ctx *runtimev2.Task, e *ast.CallExpr) *errchain.PlError {
+					cnt++
+					ctx.Regs.ReturnAppend(runtimev2.V{V: cnt, T: ast.Int})
+					return nil
+				}, Desc: runtimev2.FnDesc{Name: "next", Params: none}},
+				"stop": {CallCheck: chk(stopParams), Call: func(ctx *runtimev2.Task, e *ast.CallExpr) *errchain.PlError {
+					ctx.SetExit() // asks for the end of the run first, reads its own argument afterwards
+					v, err := runtimev2.GetParam(ctx, e, stopParams, 0)
+					if err != nil {
+						return err
+					}
+					got = append(got, "stop: "+probe.Render(v))
+					ctx.Regs.ReturnAppend(runtimev2.V{V: v, T: ast.Int})
+					return nil
+				}, Desc: runtimev2.FnDesc{Name: "stop", Params: stopParams}},
+			}
+			rp := replay{Sig: "rec(a, b?, c?) / vrec(first, rest...) / next() / stop(code?)", Call: call, Src: src}
+			sc, lerr, crash := impl.LoadV2("c19.p", src, fns)
+			if crash != nil || lerr != nil {
+				rk.Fail(t, "repeated-sites", rp, "a script of bindable calls was not loaded: %v %v\nscript:\n%s", lerr, crash, src)
+				continue
+			}
+			for pass := 0; pass < 2; pass++ { // the loaded script run twice: the second run binds like the first
+				got, cnt = nil, 0
+				rerr, crash := impl.RunV2(sc, nil)
+				if crash != nil || rerr != nil {
+					rk.Fail(t, "repeated-sites", rp, "run %d failed: %v %v\nscript:\n%s", pass+1, rerr, crash, src)
+					break
+				}
+				if strings.Join(got, "\n") != strings.Join(want, "\n") {
+					rk.Fail(t, "repeated-sites", rp, "run %d: the functions received\n  %s\nthe script gave\n  %s\nscript:\n%s", pass+1, strings.Join(got, "\n  "), strings.Join(want, "\n  "), src)
+					break
+				}
+			}
+			labels := []string{"repeated-call-site"}
+			if strings.Contains(call, "=") {
+				labels = append(labels, "repeated-call-site/named-argument")
+			}
+			if stopped {
+				labels = append(labels, "repeated-call-site/exit-requested-inside-an-argument")
+			}
+			evid.Case(fmt.Sprintf("repeated/%s/%d", call, li), true, labels...)
+			n++
+		}
+	}
+	rec = func(sh shape, chosen []int) {
+		if len(chosen) == len(sh.param) {
+			run(sh, chosen)
+			return
+		}
+		for e := range exprs {
+			rec(sh, append(append([]int{}, chosen...), e))
+		}
+	}
+	for _, sh := range shapes {
+		rec(sh, nil)
+	}
+	evid.Exhaustive("call shape (positional / named / variadic) x argument expression forms x loop form, each script run twice", n)
+}
+
 // TestSharedDeclarations: the parameter list a call is bound against is the slice the function was registered with:
 // its length and its elements at the time of the load - also when several functions are declared as prefixes of one
 // array of parameters, in whichever order they are loaded, and when a list is edited between two loads.
